@@ -15,7 +15,7 @@ CHECKS = {
  "C09": dict(engine="engine-A", cat="model_checking", ref="DESIGN.md 4, 7/C09", note=SCHED_NOTE, tech=SCHED_TECH,
    text="every schedule of 28 closed drivers of the real engine/pool.ThreadPool (1-3 workers, 1-3 tasks single/burst, WaitAll, "
         "JoinAll with a task that submits a task, resize sequences incl. negative counts with tasks arriving from a second thread, the queue-filling "
-        "callback with threshold 1 while a second thread waits in WaitAll) within preemption "
+        "callback with threshold 1 while a second thread waits in WaitAll, Finish() of a processor while another thread adds an event) within preemption "
         "bound 1-3 and free-choice bound 3 is executed; oracle: no deadlock/livelock while a worker exists and a task is queued, "
         "every task ran exactly once, WaitAll/JoinAll/SetWorkerCount post-conditions"),
  "C02": dict(engine="engine-A", also=["engine-B"], cat="model_checking", ref="DESIGN.md 4, 7/C02", note=SCHED_NOTE, tech=SCHED_TECH,
@@ -29,7 +29,7 @@ CHECKS = {
  "C12": dict(engine="engine-A", cat="model_checking", ref="DESIGN.md 4, 7/C12", note=SCHED_NOTE + "; thread ids are non-zero (NewThreadID never returns 0)", tech=SCHED_TECH,
    text="every schedule (preemption bound 1-3) of 42 drivers of the real interpreter: 2-3 threads evaluating functions directly with own thread "
         "ids, and two sink invocations on 2 workers plus one direct evaluation, entering mutex blocks of names {m,n}, nesting depth 1-3, six "
-        "exit kinds (normal, raise, runtime error, return, break, continue); oracle: occupancy of a name never exceeds 1 (harness enter/leave "
+        "exit kinds (normal, raise, runtime error, return, break, continue), also a completed nested block followed by another one of the same name; oracle: occupancy of a name never exceeds 1 (harness enter/leave "
         "functions called from ECAL), a schedule with two different names occupied is found, nested same-name entry never blocks, no deadlock, "
         "no lost update on a counter updated only inside the block, owner table and mutexes released at the end; thread ids are allocated inside "
         "the threads and must be pairwise distinct; no unordered access to a field of a lock-carrying struct (e.g. the thread-id counter); a host "
@@ -50,12 +50,12 @@ CHECKS = {
    text="every schedule (preemption bound 1-3) of 17 drivers in which 2-3 threads run parser.Parse / ParseWithRuntime (and Validate+Eval of an "
         "interpolating string) on texts with if/elif/else, for, map literals, nested maps, a syntax error; scheduling points are the accesses to "
         "the mutable package-level variables of parser/ and interpreter/ that the instrumenter finds in the current tree (listed in the evidence); "
-        "oracle: each concurrent result equals the sequential result, later sequential parses still do, runtime-component ids are pairwise "
+        "(two scenarios start with a parse that fails on its very first token); oracle: each concurrent result equals the sequential result, later sequential parses still do, runtime-component ids are pairwise "
         "distinct, no happens-before race on any instrumented variable, no panic; plus (Engine B, sequential) for 23 corpus texts and 40 generated "
         "texts with characters the process has never lexed x {Parse, ParseWithRuntime}: a reflective snapshot of EVERY package-level variable of "
         "parser and interpreter (accessor generated from the working tree; the locked instance counter excepted) is identical before and after"),
  "C15": dict(engine="engine-A", cat="model_checking", ref="DESIGN.md 4, 7/C15", note=SCHED_NOTE + "; the debugger console is modelled by a driver thread that polls `status` (a yielding sleep) and answers every reported suspension with the next command of its script", tech=SCHED_TECH + " + exhaustive enumeration of breakpoint sets x command scripts under the default schedule",
-   text="(1) for 9 programs (straight line, function calls 1-2 deep, a call as argument of a call, nested block scopes, loop, try/raise, if/else, runtime error) every breakpoint subset of <= 2 "
+   text="(1) for 9 programs (straight line, function calls 1-2 deep, a call as argument of a call, nested block scopes with a range loop inside a function, loop, try/raise, if/else, runtime error) every breakpoint subset of <= 2 "
         "lines x every command script of length <= 2 over {resume, stepin, stepover, stepout} plus stop-all variants is run on fresh real "
         "debuggers (about 3500 configurations) and compared with the undebugged run (result, log, final variables) and, with break-on-error off, "
         "with the suspension lines derived from the program's line trace; (1b) on a 12-line program every history of <= 2 (thorough 3) breakpoint "
@@ -71,14 +71,15 @@ CHECKS = {
         "data / at the first-ever visit of a single-statement program by breakpoint and by break-on-start)) every command line of a 140-390 line menu (10 commands + unknown, 0-4 arguments over valid/finished/zero/negative/huge/non-numeric "
         "thread ids, known/unknown/malformed source:line targets, identifiers, expressions, garbage) is applied in every distinct canonical "
         "state up to depth 2 (thorough 3); invariant: no panic, result JSON-encodable when the error is nil, debugger lock free afterwards, "
-        "released threads run on without fault, a following status answers and is JSON-encodable, StopThreads releases the thread; plus 13 "
-        "concurrent scenarios (a command issued while a second program thread keeps running, every schedule with <= 1-2 preemptions): no deadlock, "
+        "released threads run on without fault, a following status answers and is JSON-encodable, StopThreads releases the thread; plus 18 "
+        "concurrent scenarios (5 of them address a running, never suspended thread parked in the middle of its program) (a command issued while a second program thread keeps running, every schedule with <= 1-2 preemptions): no deadlock, "
         "no panic, no unordered access to a debugger field (map iteration / lookup racing with a map write)"),
  "C10": dict(engine="engine-A", cat="model_checking", ref="DESIGN.md 5.3, 7/C10", note=SCHED_NOTE + "; the order in which workers take events is read off the recorded schedule (acquisition order of the task queue's lock), so no linearizability search is needed; rules of equal priority may run in any order", tech="explicit-state breadth-first search over real monitor objects + exhaustive enumeration of priority assignments on the real processor + preemption-bounded schedule enumeration for the concurrent part",
    text="(i) every priority sequence in {0,1,2}^<=5 (thorough <=6) queued for one cascade and split over two cascades while the single worker is parked: "
         "pop order must be priority-FIFO (728 cases); (ii) 3 rules x priorities {0,1,2}^3 x failing subset x fail-on-first-error on/off x 'failing rule "
         "added an event first' = 864 cases through ProcessEvent: ascending priority, nothing after the first failure when the flag is set, added events "
         "still processed, exact error report; (ii-b) the same with priorities from {MinInt64, MinInt64+1, -1, 0, 1, MaxInt64-1, MaxInt64}^3 (5488 cases); "
+        "(ii-c) the same after the rule set was replaced through Reset; "
         "(iii) breadth-first search over monitor operation histories {new child(p), activate, skip, finish} on "
         "real monitors (up to 4-5 monitors, depth 8-10, canonical state = multiset of (priority, status)): HighestPriority == lowest number among "
         "activated unfinished monitors else -1; (iv) 5 concurrent drivers (2-3 workers, mixed priorities) under every schedule with <= 1-2 preemptions: "
@@ -90,14 +91,15 @@ CHECKS = {
         "files inside and outside the root (including a sibling directory whose name has the root as prefix): about 1.05 million cases quick; "
         "the same verdict through the interpreter's import statement for paths of <= 3-4 segments. Oracle: whatever is returned is the content of a "
         "file lexically inside the root, a lexically outside path yields an error, no path outside the root reaches a file-system call"),
- "C18": dict(engine="engine-B", cat="exploration", ref="DESIGN.md 5, 7/C18", note="columns in bytes from 1; for comment tokens the reported position is that of the first content character; item sequences that do not lex into one token per item are skipped (counted)", tech="bounded exhaustive enumeration of token streams with generator-recorded offsets; line/column recomputed independently from the source text",
+ "C18": dict(engine="engine-B", also=["engine-A"], cat="exploration", ref="DESIGN.md 5, 7/C18", note="columns in bytes from 1; for comment tokens the reported position is that of the first content character; item sequences that do not lex into one token per item are skipped (counted)", tech="bounded exhaustive enumeration of token streams with generator-recorded offsets; line/column recomputed independently from the source text",
    text="every sequence of <= 4 items (thorough also 5) over {identifier, number, :=, (, quoted strings incl. multi-byte, raw multi-line string, "
         "# comments (LF, CR LF terminated, containing a lone CR, unterminated), /* */ comments incl. multi-line} x separators {space, LF, CRLF, tab, none}: every token's Pos/Lline/Lpos must equal the "
         "recorded offset and the recomputed line/column (2.8 million cases quick); planted errors after every prefix of <= 3-4 filler "
         "statements/comments: a stray ')' (parser.Error), `1 + \"a\"` (util.RuntimeError) and raise(...) with calls in its arguments (also over "
         "several lines) must be reported at the recomputed line/column, "
         "and statement separation must be unaffected by comments: 22 statements starting with every kind of term in every ordered pair x 13 comment "
-        "placements around the line break must parse like the comment-free text"),
+        "placements around the line break must parse like the comment-free text; (Engine A) a main source calling an imported module whose statements "
+        "have the same line numbers: every set of <= 2 break points over 8 (source, line) targets suspends the thread exactly at the break points on its path"),
  "C19": dict(engine="engine-B", cat="exploration", ref="DESIGN.md 5, 7/C19", note="number conversion is compared only where Go defines it exactly (integral values inside the parameter type's range); Bessel functions of order >= 2^31 are excluded as non-termination inside bridged Go code", tech="bounded exhaustive enumeration of function x argument-vector pairs with independently computed expected conversions",
    text="26 synthetic Go functions (identity per numeric kind int..uint64/uintptr/float32/float64, string, bool, interface, slice, variadic, (T,error) "
         "returning nil / non-nil, two results, no result, no arguments, panicking, nil-map write) and all 62 generated math.* adapters x every argument "
@@ -106,11 +108,11 @@ CHECKS = {
         "float64(K(x)), a trailing Go error arrives as the error, panicking Go functions yield errors; math.* also through ECAL source with the "
         "same verdict and value; the 13 identity functions x 36 boundary numbers (every integer kind's limits and their neighbours, the float64 "
         "neighbours of 2^63 and 2^64); a trailing Go error in every position of the result list (only result, second, third), nil and non-nil; a Go "
-        "error object never arrives as a value"),
+        "error object never arrives as a value; one call site math[n](args) evaluated for every pair / triple of 8 function names chosen at run time"),
  "C20": dict(engine="engine-B", cat="exploration", ref="DESIGN.md 5, 7/C20", note="the packed binary is started in-process through RunPackedBinary with the osArgs/osExit/osStderr/handleError package seams (overlay-added setter; the same variables the repository's pack tests use); the interpreter binary is represented by filler bytes", tech="exhaustive sweep over source-binary lengths modulo the scanner's buffer geometry x filler patterns x project trees, with an independent reading of the produced archive",
    text="source binaries of every length in [0, 2 scan periods] (thorough 3; period = 4096 + len(marker) + 11) x 5 filler patterns (no '#', all '#', "
         "'#' at block ends, partial markers straddling block boundaries, trailing newline) x 3 project trees (single file, nested directories with an "
-        "imported library, empty file + binary file containing the marker) packed with the real CLIPacker.Pack; oracle: archive at offset "
+        "imported library, empty file + binary file containing the marker, names starting with a dot + sibling directories + deep paths) packed with the real CLIPacker.Pack; oracle: archive at offset "
         "L+len(marker) holds every file byte-identical (read independently with archive/zip), RunPackedBinary reaches the exit callback with the "
         "entry file's value, imports see the packed library, never a panic or a fall-through to the normal command line; plus projects whose "
         "imported library has exactly s bytes for s in {2^k-1, 2^k, 2^k+1 : k = 9..17} + {100, 40000, 100000, 200000} x {compressible, incompressible} "
@@ -130,7 +132,8 @@ CHECKS = {
         "evaluate the variable's content; re-entrant literals: func w(n) whose literal of 1-3 pieces over {<, >, space, {{n}}, {{w(n - 1)}}} interpolates "
         "a call to itself, n = 0..3, must equal the recursive reference (the literal node is re-entered while one of its evaluations is in progress); "
         "pieces include the escaped and the lone backslash (raw strings ending in a backslash); a raw string is never rejected; literals of <= 4 WHOLE "
-        "expressions with a counting tick(): evaluated exactly once per occurrence, left to right"),
+        "expressions with a counting tick(): evaluated exactly once per occurrence, left to right; byte, octal and unicode escape sequences next to "
+        "interpolation against strconv.Unquote"),
  "C08": dict(engine="engine-B", cat="exploration", ref="DESIGN.md 5, 7/C08", note="tree equality = node kind, token value, identifier flag, raw-vs-interpolating flag and child structure (positions, comments, blank lines ignored); four recorded findings (see known_findings.json) are pinned by the repository's own tests or need a redesign of comment placement", tech="bounded exhaustive enumeration of parseable programs with the round trip parse -> print -> parse -> print as oracle",
    text="every binary operator nested under every other on either side with and without parentheses, prefix operators on every operand and over every "
         "parenthesised pair, inside calls and index expressions (thorough: all operator triples in 5 parenthesisations); a 34-program corpus covering "
@@ -151,7 +154,8 @@ CHECKS = {
         "unchanged by Match / IsTriggering, which several workers call without a lock; (6) Engine A: two threads adding events (same / different "
         "names and kinds) to a running processor under every schedule with <= 1-2 preemptions; (7) the scope decision reached from ECAL: 9 sinks with "
         "scopematch x 81 scope maps given as fourth argument of addEventAndWait / addEvent; (8) rule sets that change over a restart: no rule or one "
-        "rule (9 kind patterns with wildcards in every position), events of 5 kinds, Finish, a second rule, Start, the same events (90 histories)"),
+        "rule (9 kind patterns with wildcards in every position), events of 5 kinds, Finish, a second rule, Start, the same events (90 histories); state "
+        "patterns that are present but empty (statematch {}) against events without state"),
  "C03": dict(engine="engine-B", cat="exploration", ref="DESIGN.md 5.2, 7/C03, 9a", note="reference semantics encode only what ecal.md and the property statement define; Unspecified (counted, not compared): zero divisors, % outside non-negative integers, ordering across kinds, equality/membership of containers, like/hasPrefix/hasSuffix on non-strings, membership in non-lists; left-to-right operand evaluation", tech="bounded exhaustive enumeration of expression trees against an independent reference evaluator that works on the generator's own trees (precedence from the stated table, not from the parser)",
    text="all x op y over 23 operands (numbers incl. 0 and fractions, strings incl. interpolating literals, booleans, null, variables, call results, "
         "list elements, map fields, list literals incl. the empty list) x 19 binary operators; prefix -, +, "
@@ -165,7 +169,8 @@ CHECKS = {
         "blocks that raise / return, placed at top level, in loop and function bodies and inside another try's body / except / otherwise "
         "(5 400 programs); every loop kind (range(a,b[,s]) for a,b in 1..3, s in {none,1,2,-1}; lists; condition) x exit statement (none, break, "
         "continue, raise, return) at every iteration x nesting; if/elif/else chains x all truth assignments, and chains in which any guard raises / "
-        "fails at run time (at top level and inside try/except/otherwise/finally). Oracle: marker trace and final "
+        "fails at run time (at top level and inside try/except/otherwise/finally); a single-variable loop over a map that keeps the previous [key, value] entry. "
+        "Oracle: marker trace and final "
         "error (type, detail, data) equal the reference"),
  "C06": dict(engine="engine-B", cat="exploration", ref="DESIGN.md 5, 7/C06", note="excluded as non-terminating by specification: sleep with a positive number, valid trigger registrations; evaluation runs under a deterministic step budget (harness debugger counting node visits); a panic on a worker goroutine kills the worker subprocess and is attributed to the case in progress through a side file", tech="bounded exhaustive enumeration of ill-typed and boundary-valued programs with 'no panic reaches the host' as oracle (recover in the evaluating goroutine plus subprocess death for worker goroutines), plus try/except catchability of every raised error",
    text="every binary and prefix operator x U^2 / U over a 20-value universe (null, booleans, 0, +-1, fractions, 1e300, strings, lists, maps, a function) as "
@@ -176,7 +181,8 @@ CHECKS = {
         "accepts, validated and evaluated (2 million evaluations quick). Oracle: no panic, no killed worker; an error raised by a statement is "
         "catchable by try/except; a failing sink does not fail its caller. The universe includes NaN and +-Inf; built-in arguments are also reached "
         "through a call, an index, a field and parentheses (argument expression shapes); caught errors whose trace runs through commented calls; a "
-        "malformed regular expression is in the universe and every failing case is evaluated a second time inside try/except"),
+        "malformed regular expression and a map holding a list are in the universe, every failing case is evaluated a second time inside try/except; "
+        "every field of a caught error object (type, detail, data, trace, line, ...) as operand of ==, in, len, concat, indexing, for"),
  "C05": dict(engine="engine-B", cat="exploration", ref="DESIGN.md 5.2, 7/C05, 9a", note="reading an undefined name yields NULL (pinned by the suite); every block is entered once per program; reads of the argument of add/del after the call are left open; a failing statement inside try has no effect", tech="bounded exhaustive enumeration of programs and container operation sequences against boring reference models written in Go (environment chain, closures as Go values, slice/map model)",
    text="scoping: global definition x outer block kind (if, for, function, mutex, try) x outer statement (none, assignment, let) x inner block kind x inner "
         "statement x late let, probed at three levels (900 programs) against an environment-chain model; functions: parameters x 5 default kinds x 0-3 "
@@ -187,7 +193,7 @@ CHECKS = {
         "inheritance shapes (1-3 super templates x with/without own constructor x call order, super[i] by position); varsScope.GetValue / SetValue with "
         "every dotted container path of <= 3 (thorough 4) segments over {k, z, n, a, x, 0, 1, 2, -1, -3, 5} on a nested list/map structure: reads of "
         "existing paths, write-then-read, frame condition over all other paths, a failing write changes nothing, never a panic; maps holding a "
-        "number key and the equally spelled string key"),
+        "number key and the equally spelled string key; names local to a try block are not visible in its except / otherwise / finally blocks"),
 }
 
 ENGINES = [
